@@ -90,4 +90,108 @@ def exampleAg : Elem :=
 
 example : exampleAg.wf 1000000 = true := by decide
 
+/-! ## completeness of the Boolean clauses (TASK K, part 3)
+
+`Elem.wf'` is the conjunction of exactly the Boolean clauses that `ElemWF` talks about; `wf'_iff` shows the
+Boolean check and the Prop reading coincide for them, and `wf_iff` characterises the full `Elem.wf` as
+`ElemWF` plus the three clauses `ElemWF` leaves out (non-empty symbol, the isotope-0 rule, `cMasses`,
+the last kept as a Boolean).  All fully proved; nothing missing. -/
+
+/-- the Boolean clauses that `ElemWF` covers: everything in `Elem.wf` except (a) `!e.sym.isEmpty`,
+    (b) the "isotope 0 ⇒ single entry of abundance 1" part of `cIsoKeys`, (c) `cMasses`. -/
+def Elem.wf' (one : Int) (e : Elem) : Bool :=
+  e.tkey == e.sym && e.isos.all (fun i => i.key == i.neutrons) && !e.isos.isEmpty &&
+  e.cShift && e.cAbundRange one && e.cAbundSum one && e.cMostAbundant && e.cMinMax
+
+/-- **completeness** of the Boolean clauses covered by `ElemWF` -/
+theorem wf'_complete (one : Int) (e : Elem) (h : ElemWF one e) : e.wf' one = true := by
+  obtain ⟨m, hm, hmax, hmass⟩ := h.most_abundant
+  have hne : e.isos.isEmpty = false := by
+    cases hi : e.isos with
+    | nil => exact absurd hi h.nonempty
+    | cons a l => rfl
+  simp only [Elem.wf', Bool.and_eq_true, beq_iff_eq, List.all_eq_true, Elem.cShift, Elem.cAbundRange,
+    Elem.cAbundSum, Elem.cMostAbundant, Elem.cMinMax, decide_eq_true_eq, hm, hne, Bool.not_false]
+  exact ⟨⟨⟨⟨⟨⟨⟨h.own_symbol, h.keyed_by_nucleon⟩, trivial⟩, h.shift_def⟩,
+    fun i hi => ⟨h.abund_pos i hi, h.abund_le_one i hi⟩⟩, h.abund_sum_hi, h.abund_sum_lo⟩,
+    hmax, hmass⟩, h.min_shift, h.max_shift⟩
+
+theorem wf'_sound (one : Int) (e : Elem) (h : e.wf' one = true) : ElemWF one e := by
+  simp only [Elem.wf', Bool.and_eq_true] at h
+  obtain ⟨⟨⟨⟨⟨⟨⟨h1, h2⟩, h2'⟩, h3⟩, h4⟩, h5⟩, h6⟩, h7⟩ := h
+  simp only [beq_iff_eq] at h1
+  simp only [List.all_eq_true, beq_iff_eq] at h2
+  simp only [Elem.cShift, List.all_eq_true, beq_iff_eq] at h3
+  simp only [Elem.cAbundRange, List.all_eq_true, Bool.and_eq_true, decide_eq_true_eq] at h4
+  simp only [Elem.cAbundSum, Bool.and_eq_true, decide_eq_true_eq] at h5
+  simp only [Elem.cMinMax, Bool.and_eq_true, beq_iff_eq] at h7
+  refine
+    { own_symbol := h1
+      keyed_by_nucleon := h2
+      nonempty := ?_
+      shift_def := h3
+      abund_pos := fun i hi => (h4 i hi).1
+      abund_le_one := fun i hi => (h4 i hi).2
+      abund_sum_hi := h5.1
+      abund_sum_lo := h5.2
+      most_abundant := ?_
+      min_shift := h7.1
+      max_shift := h7.2 }
+  · intro hnil
+    simp [hnil] at h2'
+  · simp only [Elem.cMostAbundant] at h6
+    split at h6
+    · simp at h6
+    · rename_i m hm
+      simp only [Bool.and_eq_true, List.all_eq_true, decide_eq_true_eq, beq_iff_eq] at h6
+      exact ⟨m, hm, h6.1, h6.2⟩
+
+/-- `wf_sound` is an iff for the clauses covered by `ElemWF` -/
+theorem wf'_iff (one : Int) (e : Elem) : e.wf' one = true ↔ ElemWF one e :=
+  ⟨wf'_sound one e, wf'_complete one e⟩
+
+/-- the full Boolean check implies the covered part -/
+theorem wf_imp_wf' (one : Int) (e : Elem) (h : e.wf one = true) : e.wf' one = true :=
+  wf'_complete one e (wf_sound one e h)
+
+/-- the full check = covered part + the three clauses outside `ElemWF` -/
+theorem wf_iff (one : Int) (e : Elem) :
+    e.wf one = true ↔
+      ElemWF one e ∧ e.sym ≠ [] ∧
+      (e.isos.any (fun i => i.key == 0) = true →
+        e.isos.length = 1 ∧ (∀ i ∈ e.isos, i.abund = one) ∧ e.mostIso = 0) ∧
+      e.cMasses one = true := by
+  constructor
+  · intro h
+    refine ⟨wf_sound one e h, ?_⟩
+    simp only [Elem.wf, Bool.and_eq_true] at h
+    obtain ⟨⟨⟨⟨⟨⟨⟨h1, h2⟩, _⟩, _⟩, _⟩, _⟩, _⟩, h8⟩ := h
+    simp only [Elem.cOwnSymbol, Bool.and_eq_true, beq_iff_eq, Bool.not_eq_true', List.isEmpty_eq_false_iff] at h1
+    simp only [Elem.cIsoKeys, Bool.and_eq_true] at h2
+    refine ⟨h1.2, ?_, h8⟩
+    intro hany
+    have := h2.2
+    rw [if_pos hany] at this
+    simp only [Bool.and_eq_true, beq_iff_eq, List.all_eq_true] at this
+    exact ⟨this.1.1, this.1.2, this.2⟩
+  · rintro ⟨hw, hs, h0, h8⟩
+    have hw' := wf'_complete one e hw
+    simp only [Elem.wf', Bool.and_eq_true] at hw'
+    obtain ⟨⟨⟨⟨⟨⟨⟨h1, h2⟩, h2'⟩, h3⟩, h4⟩, h5⟩, h6⟩, h7⟩ := hw'
+    simp only [Elem.wf, Bool.and_eq_true]
+    refine ⟨⟨⟨⟨⟨⟨⟨?_, ?_⟩, h3⟩, h4⟩, h5⟩, h6⟩, h7⟩, h8⟩
+    · simp only [Elem.cOwnSymbol, Bool.and_eq_true, Bool.not_eq_true', List.isEmpty_eq_false_iff]
+      exact ⟨h1, hs⟩
+    · simp only [Elem.cIsoKeys, Bool.and_eq_true]
+      refine ⟨⟨h2, h2'⟩, ?_⟩
+      split
+      · rename_i hany
+        have := h0 hany
+        simp only [Bool.and_eq_true, beq_iff_eq, List.all_eq_true]
+        exact ⟨⟨this.1, this.2.1⟩, this.2.2⟩
+      · rfl
+
+
+example : exampleAg.wf' 1000000 = true := by decide
+
 end Chem
